@@ -60,14 +60,27 @@ TMut == /\ ok /\ l <= Len(Trace) /\ e.ev \in MutEvs
                 /\ mode' = IF e.ev = "rebuild" /\ ~e.err THEN "exact" ELSE mode
         /\ l' = l + 1 /\ UNCHANGED <<cfg, be, meta>>
 
+\* smallest k such that applying the first k entries of q to S yields the listing
+\* `seen`, or -1; linear in Len(q) (the state is carried along)
+RECURSIVE FindPrefix(_, _, _, _)
+FindPrefix(S, q, k, seen) ==
+  IF Proj(S) = seen THEN k
+  ELSE IF k = Len(q) THEN -1
+  ELSE FindPrefix(Upsert(S, q[k + 1]), q, k + 1, seen)
+
 \* state listing observed after crash + reset-to-synced + reopen (C07)
 TRecovered ==
   /\ IsEv("recovered")
   /\ LET seen == ProjSeq(e.state)
          isPre == seen = Proj(sigs)
          isPost == alt # NoAlt /\ seen = Proj(alt.post)
-     IN /\ Judge(~e.err /\ NoDup(e.state) /\ (isPre \/ isPost))
-        /\ sigs' = IF isPre \/ ~isPost THEN sigs ELSE alt.post
+         \* an import cut by the crash: each of its batches is a mutation of its own, so some prefix of the
+         \* file's list has been applied (FindPrefix is defined below)
+         isMig == alt # NoAlt /\ alt.kind = "migrate"
+         kMig == IF isMig THEN FindPrefix(sigs, alt.post, 0, seen) ELSE -1
+     IN /\ Judge(~e.err /\ NoDup(e.state) /\ (IF isMig THEN kMig >= 0 ELSE (isPre \/ isPost)))
+        /\ sigs' = IF isMig THEN (IF kMig < 0 THEN sigs ELSE UpsertAll(sigs, SubSeq(alt.post, 1, kMig)))
+                   ELSE IF isPre \/ ~isPost THEN sigs ELSE alt.post
         /\ mode' = IF alt # NoAlt /\ alt.kind = "rebuild" THEN "partial" ELSE mode
         /\ alt' = NoAlt
   /\ l' = l + 1 /\ UNCHANGED <<cfg, be, meta>>
@@ -83,26 +96,22 @@ TSetCfg == /\ IsEv("setcfg")
 \* cut file may only "succeed" if nothing of the list was lost).  A reported error
 \* may have applied any prefix of the list, which the logged post-state listing
 \* pins down.
-\* smallest k such that applying the first k entries of q to S yields the listing
-\* `seen`, or -1; linear in Len(q) (the state is carried along)
-RECURSIVE FindPrefix(_, _, _, _)
-FindPrefix(S, q, k, seen) ==
-  IF Proj(S) = seen THEN k
-  ELSE IF k = Len(q) THEN -1
-  ELSE FindPrefix(Upsert(S, q[k + 1]), q, k + 1, seen)
-
 TMigrate ==
   /\ IsEv("migrate")
   /\ LET q == Resolve(e.sigs, e.rids)
          seen == ProjSeq(e.post)
          full == UpsertAll(sigs, q)
-     IN IF ~e.err
+     IN IF Inflight(e)
+        THEN \* cut by the crash (C07): the outcome is decided by "recovered"
+             /\ ok' = TRUE /\ sigs' = sigs
+        ELSE IF ~e.err
         THEN /\ Judge(e.n = Len(e.sigs) /\ NoDup(e.post) /\ seen = Proj(full))
              /\ sigs' = full
         ELSE LET k == FindPrefix(sigs, q, 0, seen)
              IN /\ Judge(~e.complete /\ NoDup(e.post) /\ k >= 0)
                 /\ sigs' = IF k < 0 THEN sigs ELSE UpsertAll(sigs, SubSeq(q, 1, k))
-  /\ l' = l + 1 /\ UNCHANGED <<cfg, be, mode, alt, meta>>
+  /\ alt' = IF Inflight(e) THEN [kind |-> "migrate", post |-> Resolve(e.sigs, e.rids)] ELSE alt
+  /\ l' = l + 1 /\ UNCHANGED <<cfg, be, mode, meta>>
 
 \* ---------------- metadata (embedded store) ----------------
 \* A separate key space: metadata calls never touch the signature set (sigs is UNCHANGED by
